@@ -399,8 +399,18 @@ class Sim:
         else:
             args = (tuple(a_names), a_def, np.array(a_min), a_max)
         self.log.ev("new", names, mins, maxs, defaults, kw, bad, form)
+        style = cs.draw("callstyle", 3)
         try:
-            v = Vector(*args, **kw)
+            if style == 1:
+                v = Vector(args[0], defaults=args[1], mins=args[2],
+                           maxs=args[3], **kw)
+            elif style == 2:
+                v = Vector(names=args[0], maxs=args[3], mins=args[2],
+                           defaults=args[1], accept_nan=kw["accept_nan"],
+                           check_hitbounds=kw["check_hitbounds"],
+                           check_bounds=kw["check_bounds"])
+            else:
+                v = Vector(*args, **kw)
         except Exception as e:
             self.log.ev("new.raised", type(e).__name__)
             if bad is None:
